@@ -153,3 +153,197 @@ Example C14_witness_empty_pipeline_vanishes :
   read_rows (write_rows [Examples.single; {| pm_prio := Batch; pm_arr := 1%Q; pm_ops := [] |}; Examples.single])
     = Ok [Examples.single; Examples.single].
 Proof. exact Examples.ex_empty_pipeline_vanishes. Qed.
+
+(* ---------------------------------------------------------------------------------------------------------
+   The reader as the chain of LAZY generators it is (Model/CsvLazy.v; proofs in Proofs/CsvLazyFacts.v).
+   [bp_next] is one next() on batch_by_pipeline (a state is a suspension point with its locals: the
+   rows not yet pulled from the file, current_batch, current_pipeline_id), [ba_next] one next() on
+   batch_by_arrival, which drives the former. [lazy_arrivals rows] = (the PipelineArrivals a consumer receives
+   from batch_by_pipeline before it ends or raises, each as (pipeline_id token, pipeline); the refusal if it
+   raised); [lazy_pipelines] forgets the ids; [lazy_batches rows] = the same for batch_by_arrival.
+   [built b a]: a is the pipeline the eager reader builds from batch b, with b's pipeline_id. *)
+From Eudoxia Require Import Model.CsvLazy Proofs.CsvLazyFacts.
+
+(* an accepted file: the lazy reader delivers exactly the eager reader's pipelines and ends normally; and the lazy
+   reader ends normally on no other file *)
+Theorem C14_lazy_eager_ok : forall rows ps,
+  read_rows_c rows = inr ps <-> lazy_pipelines rows = (ps, None).
+Proof. exact CsvLazyFacts.lazy_eager_ok. Qed.
+Print Assumptions C14_lazy_eager_ok.
+
+(* a refused file: batch number k is the FIRST malformed one (the k batches before it are built without error),
+   the lazy reader delivers exactly the pipelines of those k batches and then raises the refusal of batch k,
+   which is the refusal the eager reader reports *)
+Theorem C14_lazy_prefix : forall rows e, read_rows_c rows = inl e ->
+  exists k bad l,
+    nth_error (batches rows) k = Some bad /\ create_pipeline bad = inl e /\
+    Forall2 built (firstn k (batches rows)) l /\ length l = k /\
+    lazy_arrivals rows = (l, Some e) /\ lazy_pipelines rows = (map snd l, Some e).
+Proof. exact CsvLazyFacts.lazy_prefix. Qed.
+Print Assumptions C14_lazy_prefix.
+
+(* conversely, whatever the lazy reader raises is the eager reader's refusal of the file *)
+Theorem C14_lazy_raise_is_refusal : forall rows l e,
+  lazy_arrivals rows = (l, Some e) -> read_rows_c rows = inl e.
+Proof. exact CsvLazyFacts.lazy_raise_is_refusal. Qed.
+Print Assumptions C14_lazy_raise_is_refusal.
+
+(* a bad file is never "loaded differently": whatever the lazy reader delivers, on any file, is item by item the
+   pipeline (and id) the eager reader builds from the batch at the same position; all batches if it ends
+   normally, a strict prefix if it raises *)
+Theorem C14_lazy_never_loads_differently : forall rows l oe, lazy_arrivals rows = (l, oe) ->
+  Forall2 built (firstn (length l) (batches rows)) l /\
+  (oe = None -> length l = length (batches rows)) /\
+  (oe <> None -> length l < length (batches rows)).
+Proof. exact CsvLazyFacts.lazy_never_loads_differently. Qed.
+Print Assumptions C14_lazy_never_loads_differently.
+
+Theorem C14_lazy_ids_prefix : forall rows, lazy_ids rows = firstn (length (lazy_ids rows)) (batch_ids rows).
+Proof. exact CsvLazyFacts.lazy_ids_prefix. Qed.
+Print Assumptions C14_lazy_ids_prefix.
+
+(* WHEN the refusal surfaces. One next() on batch_by_pipeline, suspended with current batch [cur] of pipeline
+   [id]: it pulls the remaining rows [same] of that pipeline and ONE row [r] of the next pipeline, then builds
+   the batch [cur ++ same] alone: it yields it (the rows [tl] after r are still unread, r is the new current
+   batch) or raises its refusal. So the refusal of batch k comes out of the call that follows the yield of
+   pipeline k-1, and no row beyond the first row of batch k+1 has been read by then. *)
+Theorem C14_lazy_next_step : forall id cur same r tl,
+  cur <> [] -> Forall (fun x => r_pid x = id) same -> r_pid r <> id ->
+  bp_next (BpRun (Some id) cur (same ++ r :: tl)) =
+    match create_pipeline (cur ++ same) with
+    | inl e => Raise e
+    | inr p => Yield (batch_pid (cur ++ same), p) (BpRun (Some (r_pid r)) [r] tl)
+    end.
+Proof. exact CsvLazyFacts.lazy_next_step. Qed.
+Print Assumptions C14_lazy_next_step.
+
+(* ... at the end of the file the last batch is built once the file is exhausted *)
+Theorem C14_lazy_next_last : forall id cur same,
+  cur <> [] -> Forall (fun x => r_pid x = id) same ->
+  bp_next (BpRun (Some id) cur same) =
+    match create_pipeline (cur ++ same) with
+    | inl e => Raise e
+    | inr p => Yield (batch_pid (cur ++ same), p) BpEnd
+    end.
+Proof. exact CsvLazyFacts.lazy_next_last. Qed.
+Print Assumptions C14_lazy_next_last.
+
+(* ... and the first call starts with the first row as current batch; an empty file and a finished generator stop *)
+Theorem C14_lazy_next_first : forall r rest,
+  bp_next (bp_start (r :: rest)) = bp_next (BpRun (Some (r_pid r)) [r] rest) /\ bp_next (bp_start []) = Done /\
+  bp_next BpEnd = Done.
+Proof. exact CsvLazyFacts.lazy_next_first. Qed.
+Print Assumptions C14_lazy_next_first.
+
+(* batch_by_arrival on top of it. [arrival_groups l]: the maximal runs of consecutive arrivals with equal
+   arrival time. It is a partition of l into non-empty runs of one arrival time, adjacent runs differ ... *)
+Theorem C14_arrival_groups_partition : forall l,
+  concat (arrival_groups l) = l /\
+  (forall g, In g (arrival_groups l) -> g <> [] /\ exists t, forall x, In x g -> (pm_arr (snd x) == t)%Q) /\
+  (forall j g g', nth_error (arrival_groups l) j = Some g -> nth_error (arrival_groups l) (S j) = Some g' ->
+     forall x y, In x g -> In y g' -> ~ (pm_arr (snd x) == pm_arr (snd y))%Q).
+Proof. exact CsvLazyFacts.arrival_groups_partition. Qed.
+Print Assumptions C14_arrival_groups_partition.
+
+(* ... an accepted file is delivered as the arrival groups of its pipelines ... *)
+Theorem C14_lazy_batches_ok : forall rows l,
+  lazy_arrivals rows = (l, None) -> lazy_batches rows = (arrival_groups l, None).
+Proof. exact CsvLazyFacts.lazy_batches_ok. Qed.
+Print Assumptions C14_lazy_batches_ok.
+
+(* ... and of a refused file, whose well-formed leading pipelines are l: all their arrival groups but the last
+   are delivered, then the same refusal surfaces ... *)
+Theorem C14_lazy_batches_raise : forall rows l e,
+  lazy_arrivals rows = (l, Some e) -> lazy_batches rows = (removelast (arrival_groups l), Some e).
+Proof. exact CsvLazyFacts.lazy_batches_raise. Qed.
+Print Assumptions C14_lazy_batches_raise.
+
+(* ... the last group - the batch that was being accumulated when the refusal came through - is lost: the
+   pipelines batch_by_pipeline delivered are those of the delivered batches followed by a NON-EMPTY lost batch *)
+Theorem C14_lazy_batches_lost : forall rows l e, lazy_arrivals rows = (l, Some e) -> l <> [] ->
+  exists lost, lost <> [] /\
+    arrival_groups l = fst (lazy_batches rows) ++ [lost] /\
+    l = concat (fst (lazy_batches rows)) ++ lost /\
+    snd (lazy_batches rows) = Some e.
+Proof. exact CsvLazyFacts.lazy_batches_lost. Qed.
+Print Assumptions C14_lazy_batches_lost.
+
+(* in every case: batch_by_arrival raises iff batch_by_pipeline does (the same refusal), and concatenating what it
+   delivers gives what batch_by_pipeline delivers, up to the lost batch, which is empty when nothing is raised *)
+Theorem C14_lazy_batches_concat : forall rows,
+  snd (lazy_batches rows) = snd (lazy_arrivals rows) /\
+  exists lost, fst (lazy_arrivals rows) = concat (fst (lazy_batches rows)) ++ lost /\
+               (snd (lazy_arrivals rows) = None -> lost = []).
+Proof. exact CsvLazyFacts.lazy_batches_concat. Qed.
+Print Assumptions C14_lazy_batches_concat.
+
+(* non-vacuity. [Examples.file] (diamond, single, diamond; rows 0-4, 5, 6-10; all arriving at 7/2) with the first
+   row of its THIRD pipeline deprived of its arrival time: the first two pipelines are delivered, then the
+   refusal; at the batch_by_arrival level nothing is delivered at all, both were still being accumulated *)
+Example C14_witness_lazy_bad_third :
+  read_rows_c LazyExamples.bad_third = inl RFirstNoArrival /\
+  lazy_arrivals LazyExamples.bad_third = ([(0, Examples.diamond); (1, Examples.single)], Some RFirstNoArrival) /\
+  lazy_pipelines LazyExamples.bad_third = ([Examples.diamond; Examples.single], Some RFirstNoArrival) /\
+  lazy_batches LazyExamples.bad_third = ([], Some RFirstNoArrival) /\
+  lazy_batches Examples.file = ([[(0, Examples.diamond); (1, Examples.single); (2, Examples.diamond)]], None).
+Proof. exact LazyExamples.ex_bad_third. Qed.
+
+(* the calls one by one: the first next() pulls rows 0-5 and yields the diamond, the second pulls row 6 and yields
+   the single, the third pulls rows 7-10, reaches the end of the file and raises *)
+Example C14_witness_lazy_bad_third_steps :
+  exists s1 s2,
+    bp_next (bp_start LazyExamples.bad_third) = Yield (0, Examples.diamond) s1 /\
+    s1 = BpRun (Some 1) (firstn 1 (skipn 5 LazyExamples.bad_third)) (skipn 6 LazyExamples.bad_third) /\
+    bp_next s1 = Yield (1, Examples.single) s2 /\
+    s2 = BpRun (Some 2) (firstn 1 (skipn 6 LazyExamples.bad_third)) (skipn 7 LazyExamples.bad_third) /\
+    bp_next s2 = Raise RFirstNoArrival.
+Proof. exact LazyExamples.ex_bad_third_steps. Qed.
+
+(* one-operator pipelines arriving at 1, 1, 2, 3, 3, the FOURTH with an unknown scaling law: three pipelines are
+   delivered by batch_by_pipeline; batch_by_arrival delivers the batch of arrival 1 and loses the batch of arrival 2 *)
+Example C14_witness_lazy_bad_fourth :
+  lazy_batches LazyExamples.five =
+    ([[(0, LazyExamples.at_ 1%Q); (1, LazyExamples.at_ 1%Q)]; [(2, LazyExamples.at_ 2%Q)];
+      [(3, LazyExamples.at_ 3%Q); (4, LazyExamples.at_ 3%Q)]], None) /\
+  read_rows_c LazyExamples.bad_fourth = inl RUnknownLaw /\
+  lazy_arrivals LazyExamples.bad_fourth =
+    ([(0, LazyExamples.at_ 1%Q); (1, LazyExamples.at_ 1%Q); (2, LazyExamples.at_ 2%Q)], Some RUnknownLaw) /\
+  lazy_batches LazyExamples.bad_fourth = ([[(0, LazyExamples.at_ 1%Q); (1, LazyExamples.at_ 1%Q)]], Some RUnknownLaw).
+Proof. exact LazyExamples.ex_bad_fourth. Qed.
+
+(* The consumer, WorkloadTrace (workload.py), keeps ONE batch of look-ahead: the constructor and every hand-out call
+   advance_to_next_batch(), which catches StopIteration only. [wt_replay readys rows]: the constructor, then one
+   run_one_tick per element of [readys] (the test get_next_batch_tick() <= current_tick of that call, as an
+   arbitrary predicate of next_batch: tick arithmetic is C13's subject); the pipelines each call returned, up to
+   the call that raised. Whatever the tick pattern, the simulator has received the first m batches that
+   batch_by_arrival delivers; if the constructor or a call raises, it is the refusal of the file and m is below
+   the number of delivered batches: the last delivered batch had been appended to pipelines_to_return in the very
+   call that raised and is dropped with it (on top of the batch lost inside batch_by_arrival) *)
+Theorem C14_trace_lookahead_prefix : forall rows readys ticks oe', wt_replay readys rows = (ticks, oe') ->
+  exists m, concat ticks = concat (firstn m (fst (lazy_batches rows))) /\
+            forall e, oe' = Some e ->
+              snd (lazy_batches rows) = Some e /\ m <= pred (length (fst (lazy_batches rows))).
+Proof. exact CsvLazyFacts.wt_replay_prefix. Qed.
+Print Assumptions C14_trace_lookahead_prefix.
+
+(* an accepted file never makes WorkloadTrace raise *)
+Theorem C14_trace_good_file_never_raises : forall rows readys,
+  snd (lazy_batches rows) = None -> snd (wt_replay readys rows) = None.
+Proof. exact CsvLazyFacts.wt_replay_good. Qed.
+Print Assumptions C14_trace_good_file_never_raises.
+
+(* a refused file all of whose batches are due at the first call: the simulator receives nothing at all *)
+Theorem C14_trace_all_due_receives_nothing : forall rows e t, snd (lazy_batches rows) = Some e ->
+  wt_replay ((fun _ => true) :: t) rows = ([], Some e).
+Proof. exact CsvLazyFacts.wt_replay_all_ready. Qed.
+Print Assumptions C14_trace_all_due_receives_nothing.
+
+(* [bad_fourth] through WorkloadTrace ([due t] = the batch's arrival is <= t): the call at which the delivered batch
+   of arrival 1 is due raises, pipelines 0 and 1 never reach the simulator; the good file is handed out in full *)
+Example C14_witness_trace_bad_fourth :
+  wt_replay [LazyExamples.due 0%Q; LazyExamples.due 1%Q; LazyExamples.due 5%Q] LazyExamples.bad_fourth
+    = ([[]], Some RUnknownLaw) /\
+  wt_replay [LazyExamples.due 0%Q; LazyExamples.due 1%Q; LazyExamples.due 5%Q] LazyExamples.five =
+    ([[]; [(0, LazyExamples.at_ 1%Q); (1, LazyExamples.at_ 1%Q)];
+      [(2, LazyExamples.at_ 2%Q); (3, LazyExamples.at_ 3%Q); (4, LazyExamples.at_ 3%Q)]], None).
+Proof. exact LazyExamples.ex_trace_bad_fourth. Qed.
